@@ -29,6 +29,9 @@ inductive Err
   | builder        -- Request.error accumulated by setters (Do returns before any middleware)
   | unreplayable   -- retry enabled with an unreplayable body
   | digest         -- digest challenge could not be answered
+  | output         -- SetOutput / SetOutputFile: creating or writing the output failed (handleDownload)
+  | ctxCanceled    -- an error that wraps context.Canceled (raised by the transport / a wrapper)
+  | ctxDone        -- `r.Context().Err()`, assigned by do()'s wait before a retry when the context is done
   deriving DecidableEq, Repr, Inhabited
 
 inductive ResultState
